@@ -1,9 +1,92 @@
 (* Check/C02.v — C02: scripts are split into commands and words, and substituted, per the grammar.
-   First stage: the observation is the generic script observation; the oracle is refined in
-   Spec/SpecGrammar.v. *)
-From Molt Require Import Model.Base Check.ScriptObs.
+   Two kinds of cases:
+   - (limit scripts probes): a raw string; the oracle is agreement with the model (whose parser
+     is the subject of Proofs/GrammarFacts.v);
+   - (limit (prelude text) probes tree fault): a script rendered from a concrete syntax tree; the
+     oracle is Spec/SpecGrammar.v: the tree renders to exactly this text, and the commands
+     invoked, their arguments, the variables left behind and the result are the ones computed
+     on the tree.  With fault > 0 an ill-formed command was added to the text: the evaluation
+     must be an error and nothing else may have happened. *)
+From Molt Require Import Model.Base Check.ScriptObs Spec.SpecGrammar.
+Local Open Scope N_scope.
 
 Definition c02_model_obs := script_model_obs.
-Definition c02_spec_ok (c obs : term) : bool := term_eqb obs (script_model_obs c).
+
+(* the environment the checker's prelude sets up *)
+Definition c02_env0 : list (str * str) :=
+  [(lit "a", lit "1"); (lit "l", lit "p q r"); (lit "r", lit "rec");
+   (lit "d", lit "$a [rec boom] \n {"); (lit "e", []); (lit "a b", lit "sp"); ([233], [252]);
+   (lit "b(1)", lit "x"); (lit "b(a)", lit "y")].
+Definition c02_probes : list str :=
+  [lit "a"; lit "l"; lit "r"; lit "d"; lit "e"; lit "n1"; lit "n2"; lit "a b"; [233]].
+
+(* the ill-formed commands (twin of harness c02cst::FAULTS): text, and whether it goes first *)
+Definition c02_fault (k : Z) : str * bool :=
+  if Z.eqb k 1 then (lit "rec {abc", false)
+  else if Z.eqb k 2 then (lit "rec ""abc", false)
+  else if Z.eqb k 3 then (lit "rec [rec a", false)
+  else if Z.eqb k 4 then (lit "rec {a}b", false)
+  else if Z.eqb k 5 then (lit "rec ""a""b", false)
+  else if Z.eqb k 6 then (lit "rec ${a", false)
+  else if Z.eqb k 7 then (lit "rec $b(1", false)
+  else if Z.eqb k 8 then (lit "rec {a}b" ++ [c_nl], true)
+  else (lit "rec ""a""b;", true).
+
+Definition vars_of (env : list (str * str)) : term :=
+  TList (map (fun n => match env_get n env with
+                       | Some v => TTag "scalar" [TStr v]
+                       | None => TTag "unset" []
+                       end) c02_probes).
+
+Definition ends_terminated (s : str) : bool :=
+  match rev s with
+  | [] => true
+  | c :: _ => (c =? c_semi) || (c =? c_nl)
+  end.
+
+Definition is_error_outcome (t : term) : bool :=
+  match t with
+  | TList (TStr tg :: TInt code :: _) => str_eqb tg (lit "Err") && Z.eqb code 1
+  | _ => false
+  end.
+
+Definition c02_tree_ok (c obs : term) (tree : term) (fault : Z) : bool :=
+  let text := nth 1 (term_strs (term_nth c 1)) [] in
+  match dec_script tree, term_list obs with
+  | Some sc, [TList [_; out]; TList calls; vars; TInt level] =>
+      wf sc && Z.eqb level 0 &&
+      if Z.eqb fault 0 then
+        str_eqb (render sc) text
+        && match expected c02_env0 sc with
+           | Some (trace, env, res) =>
+               term_eqb out (TTag "Ok" [TStr res])
+               && term_eqb (TList calls) (TList (map TStrs trace))
+               && term_eqb vars (vars_of env)
+           | None => false
+           end
+      else
+        let '(ft, at_start) := c02_fault fault in
+        ends_terminated (render sc)
+        && str_eqb text (if at_start then ft ++ render sc else render sc ++ ft)
+        && is_error_outcome out
+        && match calls with [] => true | _ => false end
+        && term_eqb vars (vars_of c02_env0)
+  | _, _ => false
+  end.
+
+Definition c02_spec_ok (c obs : term) : bool :=
+  match term_list c with
+  | [_; _; _; tree; TInt fault] => c02_tree_ok c obs tree fault
+  | _ => term_eqb obs (script_model_obs c)
+  end.
 Definition c02_known (c : term) : bool := false.
-Definition c02_nontrivial (c : term) : bool := true.
+(* non-trivial: a tree case, or a raw string on which something was invoked or rejected *)
+Definition c02_nontrivial (c : term) : bool :=
+  match term_list c with
+  | [_; _; _; TList (_ :: _); _] => true
+  | _ => match term_list (script_model_obs c) with
+         | [TList [_; out]; TList calls; _; _] =>
+             match calls with _ :: _ => true | [] => is_error_outcome out end
+         | _ => false
+         end
+  end.
